@@ -445,6 +445,90 @@ def cert_variants(seed):
     return variants
 
 
+def check_inplace_histories(acc, cls, o, w):
+    """The certificate reached by editing a principal / option / extension in place must compose to the bytes of
+    the equal certificate built by construction (whose layout check_against_reference judges)."""
+    nc = objects._not_constructible()
+    try:
+        variants = objects.inplace_variants(o, False)
+    except nc:
+        return
+    for tag, rebuilt, inplace in variants:
+        acc.counters['transitions'] = acc.counters.get('transitions', 0) + 1
+        try:
+            a = rebuilt()
+            exp = bytes(a.compose())
+            b = inplace()
+        except Exception:  # noqa - not constructible / not composable / frozen
+            continue
+        holder = tag.split('.')[0].split('[')[0]
+        try:
+            got = bytes(b.compose())
+        except Exception as e:  # noqa
+            acc.violation('inplace:cert:%s:compose_raises:%s' % (holder, type(e).__name__),
+                          'certificate edited in place (%s) cannot be composed' % tag, dict(w, tag=tag))
+            continue
+        acc.state(core.h64('cert-inplace', w['cls'], w['variant'], tag))
+        if got != exp:
+            i = next((k for k in range(min(len(got), len(exp))) if got[k] != exp[k]), min(len(got), len(exp)))
+            acc.violation('inplace:cert:%s:layout' % holder, '%s edited in place (%s) composes to bytes that differ at '
+                          'offset %d from the encoding of the equal certificate built by construction (%d vs %d bytes)'
+                          % (cls.__name__, tag, i, len(got), len(exp)), dict(w, tag=tag, composed=got[:300],
+                                                                            reference=exp[:300]))
+
+
+def ecdsa_wire_forms():
+    """[(algorithm name, curve identifier, blob)]: RFC 5656 s3.1 blobs string(name) string(identifier) string(Q) for
+    every ECDSA host-key algorithm name x every curve identifier the library knows (identifiers that are OIDs are
+    not part of the algorithm name, and name and identifier may disagree on the wire) x 2 point patterns."""
+    from cryptodatahub.common.algorithm import Authentication
+    from cryptodatahub.ssh.algorithm import SshEllipticCurveIdentifier, SshHostKeyAlgorithm, SshHostKeyType
+    algs = [a for a in SshHostKeyAlgorithm if a.value.key_type == SshHostKeyType.HOST_KEY
+            and a.value.signature is not None and a.value.signature.value.key_type == Authentication.ECDSA]
+    out = []
+    for a in algs:
+        for c in SshEllipticCurveIdentifier:
+            size = (c.value.named_group.value.size + 7) // 8
+            for pat in ((0x11, 0x22), (0x80, 0x01)):
+                q = b'\x04' + bytes((pat[0],)) * size + bytes((pat[1],)) * size
+                out.append((a.value.code, c.value.code, ref.string(a.value.code.encode('ascii'))
+                            + ref.string(c.value.code.encode('ascii')) + ref.string(q)))
+    return out
+
+
+def _ecdsa_worker(_):
+    """Every RFC 5656 blob (algorithm name x curve identifier x point pattern) parses and is composed back bit-exactly,
+    with the curve and point that are on the wire."""
+    acc = core.Acc()
+    from cryptoparser.ssh.key import SshHostKeyECDSA
+    doc = classes.documented_errors()
+    for i, (name, ident, blob) in enumerate(ecdsa_wire_forms()):
+        acc.counters['transitions'] = acc.counters.get('transitions', 0) + 1
+        w = {'kind': 'ecdsa', 'algorithm': name, 'curve': ident, 'index': i}
+        try:
+            o = SshHostKeyECDSA.parse_exact_size(blob)
+        except doc as e:
+            acc.violation('ecdsa:rejected:%s' % type(e).__name__, 'RFC 5656 blob %s / %s rejected' % (name, ident), w)
+            continue
+        acc.state(core.h64('ecdsa', i))
+        if o.host_key_algorithm.value.code != name:
+            acc.violation('ecdsa:fields:algorithm', 'parsed algorithm %s, wire has %s' % (o.host_key_algorithm.value.code,
+                                                                                          name), w)
+        try:
+            got = bytes(o.compose())
+        except Exception as e:  # noqa
+            acc.violation('ecdsa:compose_raises:%s' % type(e).__name__, 'parsed ECDSA key %s / %s cannot be composed'
+                          % (name, ident), w)
+            continue
+        if got != blob:
+            k = next((k for k in range(min(len(got), len(blob))) if got[k] != blob[k]), min(len(got), len(blob)))
+            acc.violation('ecdsa:layout:%s' % ('named' if ident in name else 'oid_or_mismatch'),
+                          'ECDSA key %s / %s is composed differently from the RFC 5656 blob (offset %d)'
+                          % (name, ident, k), dict(w, composed=got[:200], reference=blob[:200]))
+    acc.sample({'kind': 'ecdsa', 'forms': len(ecdsa_wire_forms())}, 1)
+    return acc.result()
+
+
 def _cert_option_worker(args):
     qn, = args
     acc = core.Acc()
@@ -464,6 +548,7 @@ def _cert_option_worker(args):
         check_against_reference(acc, cls, o, {'kind': 'cert', 'cls': qn, 'variant': i,
                                              'changed': {k: repr(v)[:120] for k, v in ch.items()}})
         acc.state(core.h64('cert', qn, i))
+        check_inplace_histories(acc, cls, o, {'kind': 'cert_inplace', 'cls': qn, 'variant': i})
     acc.sample({'kind': 'cert', 'cls': qn, 'variants': len(variants)}, 1)
     return acc.result()
 
@@ -526,6 +611,7 @@ def run(ctx):
     ctx.pmap(_object_worker, oitems)
     ctx.pmap(_cert_option_worker, [(classes.qualname(c),) for c in bridged_classes()
                                    if c.__name__.startswith('SshHostCertificate')])
+    ctx.pmap(_ecdsa_worker, [0], nproc=1)
     ctx.pmap(_banner_worker, [0], nproc=1)
     ctx.assumptions += [
         'reference encoders written from RFC 4251/4253/4419/5656/8709 and OpenSSH PROTOCOL.certkeys; anchored on the '
@@ -562,9 +648,17 @@ def replay(ctx, w):
     elif k == 'banner':
         res = _banner_worker(0)
         res = (res[0], [v for v in res[1] if v['witness'].get('wire') == w.get('wire')] or res[1], res[2], res[3])
+    elif k == 'ecdsa':
+        res = _ecdsa_worker(0)
+        res = (res[0], [v for v in res[1] if v['witness'].get('index') == w.get('index')], res[2], res[3])
     elif k == 'cert':
         res = _cert_option_worker((w['cls'],))
-        res = (res[0], [v for v in res[1] if v['witness'].get('variant') == w.get('variant')] or res[1], res[2], res[3])
+        res = (res[0], [v for v in res[1] if v['witness'].get('variant') == w.get('variant')
+                        and v['witness'].get('kind') == 'cert'] or res[1], res[2], res[3])
+    elif k == 'cert_inplace':
+        res = _cert_option_worker((w['cls'],))
+        res = (res[0], [v for v in res[1] if v['witness'].get('variant') == w.get('variant')
+                        and v['witness'].get('tag') == w.get('tag')], res[2], res[3])
     else:
         cls = classes.class_by_name(w['cls'])
         seed = objects.seed_objects()[cls][w['seed']]
